@@ -5,9 +5,12 @@ import Cpppo.Model.Regex
 driver for C11
 
 * `rx.run <bytes 0|1> <variant 1=fixed|0=old|d|k> <terminal 0|1> <fsm> <chunks>`  → `<ok|nonterminal|refused> <T|F> <sent> <stored>`
-* `rx.lang <fsm> <ast> <bound>` → `ok` when the fsm is well-formed, carries the liveness certificate and
-  accepts exactly the sentences of `<ast>` among all strings up to `<bound>` over the symbols named in
-  either plus one unnamed symbol; otherwise `illformed` / `nocert` / `diff:<string>`
+* `rx.lang <fsm> <ast> <bound> <exact 0|1>` → `ok` when the fsm is well-formed, carries the liveness certificate and
+  accepts exactly the sentences of `<ast>`: no difference among all strings up to `<bound>` over the symbols
+  named in either plus one unnamed symbol, AND a bisimulation certificate between the fsm and the iterated
+  derivatives of `<ast>` is found and passes the verified checker `isBisim` (exact equality of the
+  languages); if only the bounded comparison holds: `ok-bounded` when `<exact>` = 1, `ok` when 0; otherwise `illformed` / `nocert` /
+  `diff:<string>`
 * `rx.spec <ast> <symbols>` → `<ok|nonterminal> <sent> <stored>`: the specification run
 * `rx.utf8 <codepoints>` → the UTF-8 bytes
 
@@ -18,7 +21,7 @@ driver for C11
 namespace Cpppo.Driver.Regex
 open Cpppo.Wire Cpppo.Regex Cpppo.Rx
 
-def commands : List String := ["rx.run", "rx.lang", "rx.spec", "rx.utf8"]
+def commands : List String := ["rx.run", "rx.lang", "rx.spec", "rx.utf8", "rx.bisim"]
 
 def splitOn (s : String) (sep : Char) : List String :=
   s.split (· == sep) |>.toList.map (·.toString)
@@ -101,9 +104,6 @@ def stringsOfLen (sig : List Sym) : Nat → List (List Sym)
 
 def dedup (l : List Nat) : List Nat := l.foldl (fun acc x => if acc.contains x then acc else acc ++ [x]) []
 
-def fsmSyms (F : Fsm) : List Sym :=
-  dedup (F.map.flatMap fun e => e.2.filterMap (·.1))
-
 def insertSorted (x : Nat) : List Nat → List Nat
   | [] => [x]
   | y :: ys => if x ≤ y then x :: y :: ys else y :: insertSorted x ys
@@ -139,15 +139,24 @@ def handle : List String → Option String
     let t := if term == "1" && r.outcome == .ok then "T" else "F"
     if r.outcome == .refused then pure "refused F 0 -"
     else pure s!"{showOutcome r.outcome} {t} {r.consumed.length} {showNats r.consumed}"
-  | ["rx.lang", fsm, ast, bound] => do
+  | ["rx.lang", fsm, ast, bound, exact] => do
     let F ← parseFsm fsm
     let r ← parseAst ast
     let bound ← bound.toNat?
     if !F.wf then pure "illformed"
     else if !F.certLive then pure "nocert"
+    else if isBisim F r (explore F r 150) then
+      -- exact: a bisimulation certificate passes the verified checker `isBisim`
+      pure "ok"
     else match langDiff F r bound with
       | some w => pure s!"diff:{showNats w}"
-      | none => pure "ok"
+      | none => pure (if exact == "1" then "ok-bounded" else "ok")
+  | ["rx.bisim", fsm, ast, fuel] => do
+    let F ← parseFsm fsm
+    let r ← parseAst ast
+    let fuel ← fuel.toNat?
+    let R := explore F r fuel
+    pure s!"{if isBisim F r R then "cert" else "nocert"} {R.length}"
   | ["rx.spec", ast, w] => do
     let r ← parseAst ast
     let w ← natList w ','
